@@ -191,3 +191,41 @@ func VerifC25HeapShape() {
 	}
 	verifReach("end")
 }
+
+// VerifC25HeapShapeSmall: the same experiment on larger heaps with expiries from a 4-value alphabet (ties included):
+// every assignment of {0,1,2,3} to 7 (thorough 8) items, every single removal, full drain. Complements heapshape
+// (fully symbolic expiries, 6 items): misplacements that need a third heap level below a non-root parent only show here.
+func VerifC25HeapShapeSmall() {
+	n := verifParam("items", 7, 8)
+	eh := New[*c25Item](2)
+	var items [8]*c25Item
+	var held [8]bool
+	for i := 0; i < n; i++ {
+		items[i] = &c25Item{id: ids.ID{byte(i + 1), 0xcc}, exp: int64(verifChoose("exp", 4))}
+		eh.Add(items[i])
+		held[i] = true
+	}
+	r := verifChoose("remove", n)
+	got, ok := eh.Remove(items[r].id)
+	if !ok || got != items[r] {
+		verifFail("shape-remove-wrong")
+	}
+	held[r] = false
+	for left := n - 1; left > 0; left-- {
+		p, ok := eh.PopMin()
+		if !ok {
+			verifFail("shape-popmin-empty-too-early")
+		}
+		k := int(p.id[0]) - 1
+		if k < 0 || k >= n || !held[k] || p != items[k] {
+			verifFail("shape-popmin-returned-absent-item")
+		}
+		held[k] = false
+		for j := 0; j < n; j++ {
+			if held[j] && items[j].exp < p.exp {
+				verifFail("shape-popmin-not-minimal-after-remove")
+			}
+		}
+	}
+	verifReach("end")
+}
